@@ -116,6 +116,25 @@ pub fn check(id: &str, tier: Tier) -> i32 {
   if id == "C13" {
     crate::props_hist::c13_single_threaded(&run, thorough);
   }
+  if id == "C07" {
+    // one thread alone: every operation of every history returns (the degenerate schedule, but far deeper
+    // histories than the schedule explorer can afford)
+    use crate::hist::{Op::*, Sz::*, *};
+    let alphabet = vec![B(N(7)), B(N(16)), B(N(24)), B(N(33)), B(R), T(U64), AB(A16, N(9)), BO(N(16)), D(0), D(1), D(2), Disc];
+    let depth = if thorough { 6 } else { 5 };
+    let spec = Spec { alphabet: alphabet.clone(), depth, oracles: O_TERM, sync: true, unsync: false, diff: false, diff_prop: "C07" };
+    let mut cells = vec![];
+    for fl in [Fl::Optimistic, Fl::Pessimistic] {
+      for (unify, cap, min_seg) in [(true, 256u32, 8u32), (false, 225, 8), (true, 256, 0)] {
+        let mut c = Cfg::new(fl, Backend::Vec, unify, cap);
+        c.min_seg = min_seg;
+        cells.push(c);
+      }
+    }
+    let t0 = std::time::Instant::now();
+    explore(&run, &spec, &cells, &fragmented_starts(), "C07");
+    bounds.push(json!({"kind": "single-threaded histories under a budget of atomic accesses per operation", "depth": depth, "alphabet": alphabet.iter().map(|o| o.short()).collect::<Vec<_>>(), "cells": cells.len(), "starts": fragmented_starts().len(), "budget_per_operation": TERM_BUDGET, "wall_s": t0.elapsed().as_secs_f64()}));
+  }
   if id == "C13" || id == "C12" {
     // clone / drop programs: every thread owns an arena value; teardown happens inside the schedule
     use TOp::*;
@@ -211,7 +230,8 @@ pub fn check(id: &str, tier: Tier) -> i32 {
       single.push(vec![Discard]);
     }
     let bound = if thorough { 3 } else { 2 };
-    let shapes: Vec<u8> = if thorough { vec![48, 49, 50, 52, 3] } else { vec![48, 49] };
+    // 48 / 49: a free block next to the cursor; 3: two blocks large enough to be split
+    let shapes: Vec<u8> = if thorough { vec![48, 49, 50, 52, 3, 11] } else { vec![48, 49, 3] };
     let mut count = 0;
     for fl in [Fl::Optimistic, Fl::Pessimistic] {
       for shape in &shapes {
